@@ -50,7 +50,7 @@ void guard_acquired(const void *m) { g_locked = 1; g_lock_obj = m; if (g_acquire
 void guard_released(const void *m) { g_locked = 0; if (g_releases < 1000) g_releases++; }
 long *list_begin(struct list_m *l) { return l->items; }
 long *list_end(struct list_m *l) { return l->items + l->n; }
-void list_clear(struct list_m *l) { l->n = 0; }
+_Bool g_clear_locked; void list_clear(struct list_m *l) { l->n = 0; g_clear_locked = g_locked; }
 struct os_m *logger_get_stream(const void *self) { return &g_stream; }
 struct os_m *stream_put_line(struct os_m *os, const long *s)
 { if (s != g_items0 + g_written) g_in_order = 0; if (!g_locked) g_all_writes_locked = 0; if (g_written < 1000000000L) g_written++; return os; }   /* one line inserted: which one, and under the lock? */
@@ -76,12 +76,12 @@ void h_flush(void)
   struct FIX8_Logger lg; long n = nondet_long(); __CPROVER_assume(n >= 0 && n <= 1000000);
   long *items = malloc(sizeof(long) * (n + 1)); __CPROVER_assume(items != 0);
   lg._buffer.items = items; lg._buffer.n = n; lg._lines = nondet_uint();
-  g_items0 = items; g_n = n; g_written = 0; g_in_order = 1; g_all_writes_locked = 1; g_locked = 0; g_acquires = 0; g_releases = 0;
+  g_items0 = items; g_n = n; g_written = 0; g_in_order = 1; g_all_writes_locked = 1; g_locked = 0; g_acquires = 0; g_releases = 0; g_clear_locked = 0;
   logger_flush(&lg);
   __CPROVER_assert(g_written == n, "C28.flush.every_buffered_line_is_written_exactly_once");
   __CPROVER_assert(g_in_order, "C28.flush.lines_are_written_in_buffer_order");
   __CPROVER_assert(lg._buffer.n == 0 && lg._lines == 0, "C28.flush.the_buffer_is_empty_afterwards_so_no_line_is_written_twice");
-  __CPROVER_assert(g_all_writes_locked && g_lock_obj == (const void *)&lg._mutex && g_locked && g_acquires == 1 && g_releases == 0, "C28.flush.writes_and_the_clearing_happen_under_one_hold_of_the_logger_mutex");
+  __CPROVER_assert(g_all_writes_locked && g_clear_locked && g_lock_obj == (const void *)&lg._mutex && g_acquires == 1, "C28.flush.writes_and_the_clearing_happen_under_one_hold_of_the_logger_mutex");
   VACUITY_PROBE();
 }
 /* process_logline, `case sequence:`: each line takes the next number of its own counter -- one counter when the logger does not separate directions, one per direction when it does */
